@@ -66,6 +66,9 @@ def main():
                 pyModeS.common.hex2int(s_)
             for s_ in ("0001", "0010", "1000", "00010000"):
                 pyModeS.common.bin2hex(s_)
+            # ... and hex2bin on zero-padded spellings of one-byte values ("0010" has the value of "10" but twice its width)
+            for s_ in ("0010", "0020", "0008", "008D", "00A0", "0028", "0", "00", "000", "0000", "0001", "1", "01", "000010"):
+                pyModeS.common.hex2bin(s_)
         except Exception:
             pass
     if not calls:
@@ -80,6 +83,27 @@ def main():
     first = [c for c in calls if c[4] == fname]
     rest = [c for c in calls if c[4] != fname]
     bad = []
+    if focus % 3 == 2:
+        # the very first calls of the process are made near the stack limit (a recursive caller): some die of RecursionError
+        # half-way through whatever they were setting up - a lazily built table that is published before it is filled stays
+        # empty for the rest of the process
+        def _deep(k_, thunk):
+            return thunk() if k_ <= 0 else _deep(k_ - 1, thunk)
+        depth = 0
+        fr_ = sys._getframe()
+        while fr_ is not None:
+            depth += 1
+            fr_ = fr_.f_back
+        room = sys.getrecursionlimit() - depth - 2
+        some = []
+        for nm_ in names:
+            some += [c for c in calls if c[4] == nm_][:2]
+        for h in tuple(range(0, 22)) + (24, 28, 34):
+            for fn, a, k, want, nm in some:
+                try:
+                    _deep(room - h, lambda: fn(*a, **k))
+                except BaseException:  # noqa
+                    pass
     barrier = threading.Barrier(nthreads)
     sys.setswitchinterval(1e-6)
 
